@@ -21,7 +21,7 @@ def classify(op, c, m):
     return "diff"
 
 
-def exec_ops(binp, d, ops_lines):
+def exec_ops(binp, d, ops_lines, leaks=False):
     """run the harness in replay mode on a list of op lines; returns (rc, san, model_in, c, m, oracle)"""
     os.makedirs(d, exist_ok=True)
     p, mi, c, m, orc = [os.path.join(d, x) for x in ("ops.txt", "min.txt", "c.out", "m.out", "orc.txt")]
@@ -29,7 +29,9 @@ def exec_ops(binp, d, ops_lines):
     for f in (mi, c, orc):
         if os.path.exists(f):
             os.remove(f)
-    r = run([binp, "--replay", p, mi, c, orc], env=dict(os.environ, ASAN_OPTIONS="detect_leaks=0"))
+    # leaks=True: leaks count in the replay as they do in the generating run (a leaking error path must stay reproducible while
+    # a harness abort is shrunk and in the replay text)
+    r = run([binp, "--replay", p, mi, c, orc], env=dict(os.environ, ASAN_OPTIONS="detect_leaks=1:abort_on_error=0" if leaks else "detect_leaks=0"))
     if not os.path.exists(mi):
         return r.returncode, r.stdout[-3000:], [], [], [], []
     run_model(ENGINE, mi, m)
@@ -83,8 +85,10 @@ def hypothesis_stats(d, mi, c):
     n = 0
     with open(mi2, "w") as fh:
         for i, l in enumerate(mi):
+            if l.startswith("xexp ") or l.startswith("xload "):
+                continue        # stateless XML lines: irrelevant for the hypotheses, and long
             fh.write(l + "\n")
-            t = l.split()
+            t = l.split(None, 3)
             if len(t) == 3 and t[0] == "build" and i < len(c) and c[i].startswith("ret=0 "):
                 fh.write("hyp %s %s\n" % (t[1], t[2]))
                 n += 1
@@ -123,7 +127,7 @@ def failing_pred(binp, workdir, want):
     d = os.path.join(workdir, "shrink")
 
     def fails(sub):
-        rc, san, mi, c, m, orc = exec_ops(binp, d, sub)
+        rc, san, mi, c, m, orc = exec_ops(binp, d, sub, leaks=(want == "diff"))
         if want == "diff":
             if rc != 0:
                 return True
@@ -136,7 +140,7 @@ def failing_pred(binp, workdir, want):
 
 def replay_text(binp, workdir, ops, header):
     d = os.path.join(workdir, "shrink")
-    rc, san, mi, c, m, orc = exec_ops(binp, d, ops)
+    rc, san, mi, c, m, orc = exec_ops(binp, d, ops, leaks=True)
     out = ["# engine diff: %s" % header,
            "# replay: <harness diff> --replay <ops> <model-in> <c-out> <oracle>   (ops = the lines between BEGIN/END OPS)",
            "# BEGIN OPS"] + list(ops) + ["# END OPS", "# model-in line | hwloc (C) | Lean model"]
@@ -232,5 +236,9 @@ def run_engine(tier, seed):
             "rule": "a case = one model-in line (topology description, build, apply, obs) answered by the real hwloc code and by the Lean "
                     "model; generated from 8 synthetic topologies decorated by random histories of edits (rename, info add/remove/"
                     "replace, local memory incl. uint64 wrap, misc insert, restrict, allow), pairs (A, edited dup of A) and hand-built "
-                    "diff lists (valid, failing at position N, chained on one attribute, unknown types, bad depth/index); distinct = "
+                    "diff lists (valid, failing at position N, chained on one attribute, unknown types, bad depth/index); every built list and "
+                    "generated hand lists (any printable strings incl. empty and escaping-heavy ones, boundary 64-bit values, depths, indexes) "
+                    "exported as XML by the real code: scanned attribute lists (and the exact nolibxml text) predicted by the exporter model, "
+                    "the load of that text and of 4 mutated documents each (missing/repeated/unknown attributes, other type numbers, bad "
+                    "numbers, renamed/reordered/repeated elements, empty values) predicted by the importer model; distinct = "
                     "distinct (request, C answer) pairs excluding topology descriptions"}
